@@ -34,8 +34,9 @@ class LcdModel {
     if (r >= rows_) r = rows_ - 1;        // the real library clamps the row
     if (r < 0) r = 0;
     cur_row_ = r;
-    addr_ = (row_offset(r) + col) & 0x7f;
-    ev("lcd %d setCursor %d %d%s", id_, col, row, (row < 0 || row >= rows_ || col < 0) ? " badpos=1" : "");
+    addr_ = (row_offset(r) + col) & 0xff;
+    bool badpos = (row < 0 || row >= rows_ || col < 0);
+    if (!rt().lcd_quiet || badpos) ev("lcd %d setCursor %d %d%s", id_, col, row, badpos ? " badpos=1" : "");
   }
   size_t write(uint8_t c) {
     put(static_cast<char>(c));
@@ -69,7 +70,7 @@ class LcdModel {
       if (r) out[o++] = '|';
       char rowbuf[48];
       int n = cols_ > 40 ? 40 : cols_;
-      for (int c = 0; c < n; ++c) rowbuf[c] = ddram_[(row_offset(r) + c) & 0x7f];
+      for (int c = 0; c < n; ++c) rowbuf[c] = ddram_[(row_offset(r) + c) & 0xff];
       char enc[3 * 48 + 4];
       hex_text(rowbuf, static_cast<size_t>(n), enc, sizeof enc);
       size_t l = strlen(enc);
@@ -88,7 +89,7 @@ class LcdModel {
   int addr_;
   int cur_row_;
   bool begun_;
-  char ddram_[128];
+  char ddram_[256];
   uint8_t cgram_[8][8];
 
   void ensure_id() {
@@ -99,6 +100,9 @@ class LcdModel {
     r.lcd_dump_fn = &LcdModel::dump_thunk;
   }
   int row_offset(int r) const {
+    // Geometries that do not fit one HD44780 (more than 80 cells, e.g. 40x4) get an abstract layout:
+    // every row has its own 64-byte stripe, so rows cannot alias.
+    if (cols_ * rows_ > 80) return (r & 3) * 64;
     switch (r) {
       case 0: return 0x00;
       case 1: return 0x40;
@@ -111,7 +115,8 @@ class LcdModel {
     return addr >= base && addr < base + cols_;
   }
   void put(char c) {
-    ddram_[addr_ & 0x7f] = c;
+    ddram_[addr_ & 0xff] = c;
+    if (cols_ * rows_ > 80) { addr_ = (addr_ + 1) & 0xff; return; }
     // HD44780 two-line address counter: 0x00-0x27 then 0x40-0x67
     if (addr_ == 0x27) addr_ = 0x40;
     else if (addr_ == 0x67) addr_ = 0x00;
@@ -125,6 +130,7 @@ class LcdModel {
       if (!in_row(addr_)) off = 1;
       put(s[i]);
     }
+    if (rt().lcd_quiet && !off) return n;
     char enc[3 * 256 + 4];
     hex_text(s, n > 250 ? 250 : n, enc, sizeof enc);
     ev("lcd %d print row=%d col=%d n=%d offrow=%d text=%s", id_, cur_row_, start - row_offset(cur_row_), static_cast<int>(n), off, enc);
